@@ -344,3 +344,34 @@ func syntheticGrids() []*Grid {
 	}
 	return gs
 }
+
+// genDenseComb: many thin teeth whose tips and valleys fall into very few pixels of a coarse level, so that
+// the routed chain passes the same centres again and again (three, four and more visits).
+func genDenseComb(r *rand.Rand, w Window) []Pt {
+	n := w.N()
+	teeth := 3 + r.Intn(5)
+	var top []Pt
+	x := r.Int63n(n/2 + 1)
+	yb := r.Int63n(n/3 + 1)
+	ylo := yb + 1 + r.Int63n(3)
+	for t := 0; t <= 2*teeth; t++ {
+		y := ylo + r.Int63n(2)
+		if t%2 == 1 {
+			y = ylo + 2 + r.Int63n(max64(1, n-ylo-2))
+		}
+		if y > n {
+			y = n
+		}
+		top = append(top, w.pt(x, y))
+		x += 1 + r.Int63n(2)
+		if x > n {
+			x = n
+		}
+	}
+	ring := []Pt{w.pt(top[0][0]/1*0+((top[0][0]-w.X0)/w.Unit), 0)}
+	ring = []Pt{{top[0][0], w.Y0 + yb*w.Unit}, {top[len(top)-1][0], w.Y0 + yb*w.Unit}}
+	for i := len(top) - 1; i >= 0; i-- {
+		ring = append(ring, top[i])
+	}
+	return ring
+}
